@@ -896,7 +896,7 @@ func (h CheckHandoverXHeader) IsValid([]byte) error {
 		return e.Wrap(err)
 	}
 
-	if err := h.address.IsValid(nil); err != nil {
+	if err := util.CheckIsValiders(nil, false, h.address); err != nil {
 		return e.WithMessage(err, "address")
 	}
 
